@@ -113,7 +113,7 @@ def _outer(g):
     return [[a * b for b in g] for a in g]
 
 
-def check_formula(term, rec, tag, keyname, case, forms):
+def check_formula(term, rec, tag, keyname, case, forms, share=False):
     from vf.engine import make_db, make_biogeme, is_engine_error
     import numpy as np
 
@@ -160,7 +160,7 @@ def check_formula(term, rec, tag, keyname, case, forms):
                 return None
 
         for form in forms:
-            expr = R.Builder(G.betas_spec()).build(term)
+            expr = R.Builder(G.betas_spec(), share=share).build(term)
             key = (tag, label, form) if nz else None
             if form == 'disagg':
                 res = guard(form, lambda: expr.get_value_and_derivatives(
@@ -338,6 +338,50 @@ def check_formula(term, rec, tag, keyname, case, forms):
                     fail('likelihood-bhhh', form, aggB, bm)
 
 
+            elif form == 'biogeme_history':
+                if label != 'defaults':
+                    continue
+
+                def run4():
+                    import biogeme.expressions as ex
+                    b1 = make_biogeme(db, expr)
+                    names = list(b1.free_beta_names)
+                    x = np.array([full[nm] for nm in names], dtype=float)
+                    r1 = b1.calculate_likelihood_and_derivatives(x, scaled=False, hessian=True, bhhh=True)
+                    kept = [np.array(r1.gradient, dtype=float, copy=True), np.array(r1.hessian, dtype=float, copy=True),
+                            np.array(r1.bhhh, dtype=float, copy=True)]
+                    # 1. a later evaluation at another point must not change what an earlier call returned
+                    b1.calculate_likelihood_and_derivatives(x * 0.5 + 0.0625, scaled=False, hessian=True, bhhh=True)
+                    unchanged = (np.array_equal(kept[0], np.asarray(r1.gradient, dtype=float))
+                                 and np.array_equal(kept[1], np.asarray(r1.hessian, dtype=float))
+                                 and np.array_equal(kept[2], np.asarray(r1.bhhh, dtype=float)))
+                    # 2. a second model re-uses the same expression object and adds a parameter that sorts first
+                    extra = ex.Beta('A0_first', 0.25, None, None, 0)
+                    b2 = make_biogeme(db, {'log_like': expr + extra})
+                    b2.calculate_likelihood(np.array(b2.id_manager.free_betas_values, dtype=float), scaled=False)
+                    r3 = b1.calculate_likelihood_and_derivatives(x, scaled=False, hessian=True, bhhh=True)
+                    return names, unchanged, r3
+
+                out = guard(form, run4)
+                if out is None:
+                    continue
+                names, unchanged, r3 = out
+                rec.case(key, (tag, label, form, unchanged, round(float(r3.function), 8)), outcome='ok')
+                if not unchanged:
+                    fail('earlier-output-changed-by-a-later-call', form, None, 'arrays returned by the first call were overwritten')
+                g = list(map(float, r3.gradient))
+                h = [list(map(float, r_)) for r_ in r3.hessian]
+                bm = [list(map(float, r_)) for r_ in r3.bhhh]
+                if names != free:
+                    fail('reported-free-names-not-sorted', form, free, names)
+                elif not dclose(float(r3.function), aggF) or not _cmp_vec(g, aggG):
+                    fail('likelihood-gradient-after-a-second-model-was-built-on-the-same-formula', form, (aggF, aggG), (float(r3.function), g))
+                elif not _cmp_mat(h, aggH):
+                    fail('likelihood-hessian', form, aggH, h)
+                elif not _cmp_mat(bm, aggB):
+                    fail('likelihood-bhhh-after-a-second-model-was-built-on-the-same-formula', form, aggB, bm)
+
+
 def _matches_pow2_quirk(term, free, rows, full, observed, clause, form):
     """True when the observed Hessian(s) equal the reference computed with the engine's known defect in
     PowerConstant(exponent 2) mimicked - and differ from the true one only through it."""
@@ -370,7 +414,7 @@ def _parse_and_cmp(obs, agg):
 
 
 ALL_FORMS = ['disagg', 'disagg_named', 'agg', 'agg_named', 'flags_g', 'flags_gb', 'flags_gh', 'create_function', 'objective',
-             'biogeme', 'biogeme_scaled']
+             'biogeme', 'biogeme_scaled', 'biogeme_history']
 
 
 def triple_list():
@@ -391,6 +435,21 @@ def pool():
     ]
 
 
+def shared_av_terms():
+    """Logit formulas in which ONE Variable object serves as availability (or choice) and also appears in a utility;
+    the logit's own audit evaluates those parts on their own.  Columns x2 (position 0) and choice (position 1) sit at
+    positions smaller than the number of free parameters."""
+    x2v, chv, avv = ('var', 'x2'), ('var', 'choice'), ('var', 'av2')
+    return [
+        ('loglogit', ('var', 'choice'), ((1, ('*', ('beta', 'b_z'), x2v), None), (2, ('*', ('beta', 'B2'), ('var', 'x1')), x2v),
+                                         (3, ('+', ('beta', 'b10'), ('*', ('beta', 'b_a'), x2v)), None))),
+        ('loglogit', chv, ((1, ('*', ('beta', 'b_z'), chv), None), (2, ('*', ('beta', 'B2'), ('var', 'x1')), None),
+                           (3, ('beta', 'b10'), None))),
+        ('logit', ('var', 'choice'), ((1, ('*', ('beta', 'b_z'), ('var', 'x1')), None), (2, ('*', ('beta', 'B2'), avv), avv),
+                                      (3, ('*', ('beta', 'b10'), ('var', 'x2')), None))),
+    ]
+
+
 def tasks(tier, seed):
     t = []
     tri = triple_list()
@@ -400,6 +459,7 @@ def tasks(tier, seed):
         for i in range(0, len(tri), chunk):
             t.append(dict(part='triple', lo=i, hi=min(i + chunk, len(tri)), rot=rot, tier=tier))
     t.append(dict(part='findiff'))
+    t.append(dict(part='shared_av'))
     t.append(dict(part='nodb'))
     for i in range(3):
         t.append(dict(part='refusal', which=i, fresh=True))
@@ -449,6 +509,10 @@ def run_task(task):
                                       ['disagg', 'agg'])
         elif part == 'findiff':
             _findiff(rec)
+        elif part == 'shared_av':
+            for i, term in enumerate(shared_av_terms()):
+                check_formula(term, rec, f'shared-av#{i}', 'logit-with-a-variable-shared-by-availability-and-utility',
+                              dict(part='shared_av'), ['disagg', 'disagg_named', 'agg', 'biogeme', 'biogeme_history'], share=True)
         elif part == 'nodb':
             _nodb(rec)
         elif part == 'refusal':
@@ -587,6 +651,10 @@ def replay(case):
             check_formula(term, rec, 'replay', f'tree-root:{term[0]}', case, ['disagg', 'agg'])
         elif part == 'findiff':
             _findiff(rec)
+        elif part == 'shared_av':
+            for i, term in enumerate(shared_av_terms()):
+                check_formula(term, rec, f'shared-av#{i}', 'logit-with-a-variable-shared-by-availability-and-utility',
+                              dict(part='shared_av'), ['disagg', 'disagg_named', 'agg', 'biogeme', 'biogeme_history'], share=True)
         elif part == 'nodb':
             _nodb(rec)
         elif part == 'refusal':
